@@ -123,6 +123,11 @@ def check(ctx):
     _block_call(rep, model)
     from . import c03b
     c03b.run(rep, model)
+    # R12: `whatever y contained before` includes y = x when domain and range
+    # coincide: op(x, out=x) holds the values of op(x) (evaluated aliased
+    # calls, shared with C10-R3)
+    from . import c10b
+    c10b.run(rep, model, rule='R12', floor=80)
     return rep
 
 
